@@ -93,6 +93,8 @@ type G struct {
 	prio      int
 	goid      int64
 	steps     int
+
+	quiesceTimers bool
 }
 
 func (g *G) ID() int      { return g.id }
@@ -428,7 +430,7 @@ func (s *Sim) next(exclude *G) *G {
 		}
 		// nothing can move at this instant
 		for _, g := range s.gs {
-			if g.state == gQuiesce && g != exclude {
+			if g.state == gQuiesce && g != exclude && (!g.quiesceTimers || len(s.timers) == 0) {
 				g.state = gRunnable
 				return g
 			}
@@ -629,11 +631,17 @@ func (s *Sim) park(what string) {
 
 // Quiesce blocks the caller until no other goroutine can run at the current instant
 // (without advancing the clock). Returns the number of other goroutines still alive.
-func (s *Sim) Quiesce() int {
+func (s *Sim) Quiesce() int { return s.quiesce(false) }
+
+// QuiesceTimers is Quiesce, but simulated time advances (timers fire) until nothing is pending.
+func (s *Sim) QuiesceTimers() int { return s.quiesce(true) }
+
+func (s *Sim) quiesce(timers bool) int {
 	if s.stopping.Load() {
 		return 0
 	}
 	me := s.cur
+	me.quiesceTimers = timers
 	me.state = gQuiesce
 	me.waitOn = "quiesce"
 	s.step("quiesce", 0)
